@@ -1,0 +1,35 @@
+//! Scheduling seam for deterministic simulation (cargo feature `verif`, off by default).
+//!
+//! Every function here is a no-op until a simulator installs a [`Hooks`] implementation,
+//! and a thread that is not a registered actor of a simulated run passes straight through.
+use std::sync::OnceLock;
+
+pub trait Hooks: Send + Sync {
+    /// A scheduling point: the calling thread may be parked here until the simulator
+    /// lets it continue.
+    fn point(&self, site: &'static str);
+    /// A scheduling point at which the caller may only continue once `pred()` holds.
+    /// The simulator evaluates `pred` while the caller is parked.
+    fn wait_until(&self, site: &'static str, pred: &dyn Fn() -> bool);
+}
+
+static HOOKS: OnceLock<&'static dyn Hooks> = OnceLock::new();
+
+/// Install the process-wide simulator. Only the first call has an effect.
+pub fn install(h: &'static dyn Hooks) {
+    let _ = HOOKS.set(h);
+}
+
+#[inline]
+pub fn point(site: &'static str) {
+    if let Some(h) = HOOKS.get() {
+        h.point(site)
+    }
+}
+
+#[inline]
+pub fn wait_until(site: &'static str, pred: &dyn Fn() -> bool) {
+    if let Some(h) = HOOKS.get() {
+        h.wait_until(site, pred)
+    }
+}
